@@ -520,7 +520,7 @@ func isDictCapParamField(v ssa.Value, fn *ssa.Function) bool {
 	// c.DictCap where c is the (value) receiver: Field of parameter, or load of FieldAddr of its spill
 	switch x := v.(type) {
 	case *ssa.Field:
-		return x.X == fn.Params[0] && fieldOfField(x).Name() == "DictCap"
+		return x.X == fn.Params[0] && refNameOf(fieldOfField(x)) == "DictCap"
 	case *ssa.UnOp:
 		if fa, ok := x.X.(*ssa.FieldAddr); ok {
 			if f := fieldOfAddr(fa); f != nil && f.Name() == "DictCap" {
